@@ -65,3 +65,18 @@ package transport
 //@   loop 1 invariant -1 <= rangeindex && rangeindex < len(options) && isnew(a) && a != nil
 //@   loop 1 invariant optlog == old(optlog) ++ applied(options, box("*transport.SSHArgs", a), rangeindex + 1)
 //@   loop 1 invariant rangeindex == -1 ==> a.StrictKey && a.KnownHostsFile == "" && a.ConfigFile == "" && a.PrivateKeyPath == ""
+
+// ---- C16 / C01 / C03: the write path ---------------------------------------------------------------------
+// wire: ghost history of every byte handed to a transport implementation's Write, in order.
+//@ ghost wire []byte
+
+//@ func transport.Implementation.Write
+//@   trusted
+//@   modifies wire
+//@   ensures result == nil ==> wire == old(wire) ++ b
+//@   ensures result != nil ==> wire == old(wire)
+
+//@ func (*Transport).Write [C16 C01 C03]
+//@   modifies wire
+//@   ensures #passes-bytes-unmodified result == nil ==> wire == old(wire) ++ b
+//@   ensures #nothing-on-error result != nil ==> wire == old(wire)
